@@ -20,6 +20,8 @@ observation must be one of them (for inner-join trees they coincide - theorem).
             every pure-INNER tree / star: the premises of the n-ary order-independence theorem (Props/C05nary.v,
             nary_premises) are evaluated, every plan (link order x orientation) is compared with the comprehension
             all_matches; premises true + disagreement = violation nary-contradiction
+  cross-over  (harness/c05_cross.py) differently named keys and each table ALSO has a column named like the other side's key,
+            filled with other values: the consumer must see the join on the columns the Link declares (Props/C05keys.v)
 Known-defect domains are decidable predicates on the request (join type, key names, key arity, framework relation, null
 keys).  Where the recorded defect is a function of the spec result (MODEL_CHK: PyArrow key-column handling, Pandas null
 keys, LEFT/RIGHT roles exchanged) or a specific error (RAISE_PAT) the observation must equal that defect model (evaluated
@@ -491,8 +493,8 @@ def dims(spec: Dict[str, Any]) -> Dict[str, str]:
             "frameworks": "same" if len({x.get("cfw") for x in spec["groups"]}) == 1 else "cross"}
 
 
-def one(spec: Dict[str, Any]) -> Dict[str, Any]:
-    cap = Cap()
+def one(spec: Dict[str, Any], cap: Optional[Cap] = None, modes: Any = None) -> Dict[str, Any]:
+    cap = cap or Cap()
     uni = Universe(spec, cap)
     rec: Dict[str, Any] = {"spec": spec}
     try:
@@ -502,7 +504,7 @@ def one(spec: Dict[str, Any]) -> Dict[str, Any]:
         rec["exc"] = f"{type(e).__name__}: {str(e)[:120]}"
         return rec
     plan = export_plan(sess, uni)
-    o = run_observed(sess, timeout=20, ren=plan["_ren"])
+    o = run_observed(sess, modes=modes, timeout=20, ren=plan["_ren"])
     plan = routing.with_run_orders(plan, o.get("orders"))
     rec["status"] = o["status"]
     rec["exc"] = str(o.get("exc"))[-160:] if o["status"] == "raised" else None
@@ -594,8 +596,10 @@ def run(rep: vlib.Reporter, tier: str, seed: int) -> None:
     rep.proof(pr4)
     pr5 = vlib.build_props("C05shared")       # several joins sharing a source: every JoinStep merges the converted source of its own link
     rep.proof(pr5)
-    pr.ok = pr.ok and pr2.ok and pr3.ok and pr4.ok and pr5.ok
-    pr.failed_files += pr2.failed_files + pr3.failed_files + pr4.failed_files + pr5.failed_files
+    pr6 = vlib.build_props("C05keys")         # the JoinStep's merge call: keys follow the Link; frame theorem over rel_join
+    rep.proof(pr6)
+    pr.ok = pr.ok and pr2.ok and pr3.ok and pr4.ok and pr5.ok and pr6.ok
+    pr.failed_files += pr2.failed_files + pr3.failed_files + pr4.failed_files + pr5.failed_files + pr6.failed_files
     rep.coverage["trusted_base"] += [
         "Spec/Rel.v (rel_join) is the relational specification and the oracle of record (evaluated by vm_compute)",
         "Model/RoutingJ.v is a hand-written model of the run-time side of joins (registry lookups with cfw_merge_relation / "
@@ -606,7 +610,10 @@ def run(rep: vlib.Reporter, tier: str, seed: int) -> None:
         "set-iteration orders of the step objects that ran); tkey_eqb mirrors TransformFrameworkStep.__eq__ (tied by C04's planner "
         "correspondence, Model/PlannerL.tfs_key_eqb, not here)",
         "the planner (run_link, resolve_trekked_links, invert_link, fill_tfs_by_joinstep) is NOT modelled for requests with Links: "
-        "plans are exported; the merge kernels (JoinStep._merge_data) are C12's subject",
+        "plans are exported; the merge kernels (the engines JoinStep._merge_data calls) are C12's subject",
+        "Model/JoinCall.v (JoinStep._merge_data = engine(link.jointype, link.left_index, link.right_index) on (table of the object "
+        "merged into, table read)) is hand-written; tied by the cross_over family: rows received (value columns) = merge_data rel_join "
+        "(the Link) in Coq, = the rows received without the cross-over columns, = the table the run-time model computes",
         "generated consumer groups record the rows handed to their calculation; known-defect domains are Python predicates on "
         "the request (harness/c05.kf_domain); the recorded deviations arrow_join (PyArrow key-column handling), null_match_join "
         "(Pandas null keys) and flip_join (LEFT/RIGHT roles exchanged) are Gallina functions of the spec result defined in the "
@@ -806,7 +813,12 @@ def run(rep: vlib.Reporter, tier: str, seed: int) -> None:
     from harness import c05_shared
     n_sh, found_sh, dist["shared_source"] = c05_shared.run_family(rep, rng, big)
     found = found or found_sh
-    rep.count(len(recs) + len(drecs) + len(arecs) + n_sh)
+    # family cross_over (harness/c05_cross.py): differently named keys, each table also carrying a column named like the OTHER side's
+    # key; the join must follow the Link's declaration (Props/C05keys.v), not the column names
+    from harness import c05_cross
+    n_x, found_x, dist["cross_over"] = c05_cross.run_family(rep, rng, big)
+    found = found or found_x
+    rep.count(len(recs) + len(drecs) + len(arecs) + n_sh + n_x)
     dist["dimensions"] = counters
     dist["equal_to_spec_by_dimension"] = correct_by
     rep.add("distribution", dist)
@@ -841,6 +853,9 @@ def replay(path: str) -> int:
     if r.get("kind") == "shared":
         from harness import c05_shared
         return c05_shared.replay(r)
+    if r.get("kind") == "cross":
+        from harness import c05_cross
+        return c05_cross.replay(r)
     if r.get("kind") == "append":
         rec = one(spec)
         print(json.dumps({k: rec.get(k) for k in ("status", "exc", "rows")}, indent=1, default=str))
